@@ -94,3 +94,123 @@ pub fn table_model_xml(t: &serde_json::Value) -> String {
   s.push_str(&format!("<decision name=\"d\" id=\"d\"><variable name=\"d\"/>{}{}</decision></definitions>", reqs, decision_table_xml(t)));
   s
 }
+
+/// Boxed expression XML for a `form` record emitted by Gen_C04 (see Drg.tla).
+pub fn form_xml(f: &serde_json::Value) -> String {
+  match f["f"].as_str().unwrap_or("") {
+    "lit" => format!("<literalExpression><text>{}</text></literalExpression>", esc(&toks(&f["text"]))),
+    "ctx" => {
+      let mut s = String::from("<context>");
+      for e in f["ents"].as_array().unwrap() {
+        s.push_str(&format!("<contextEntry><variable name=\"{}\"/>{}</contextEntry>", esc(e["name"].as_str().unwrap()), form_xml(&e["form"])));
+      }
+      if f["res"]["f"] != "none" {
+        s.push_str(&format!("<contextEntry>{}</contextEntry>", form_xml(&f["res"])));
+      }
+      s.push_str("</context>");
+      s
+    }
+    "inv" => {
+      let mut s = format!("<invocation><literalExpression><text>{}</text></literalExpression>", esc(f["callee"].as_str().unwrap()));
+      for b in f["binds"].as_array().unwrap() {
+        s.push_str(&format!("<binding><parameter name=\"{}\"/>{}</binding>", esc(b["p"].as_str().unwrap()), form_xml(&b["form"])));
+      }
+      s.push_str("</invocation>");
+      s
+    }
+    "rel" => {
+      let mut s = String::from("<relation>");
+      for c in f["cols"].as_array().unwrap() {
+        s.push_str(&format!("<column name=\"{}\"/>", esc(c.as_str().unwrap())));
+      }
+      for r in f["rows"].as_array().unwrap() {
+        s.push_str("<row>");
+        for cell in r.as_array().unwrap() {
+          s.push_str(&form_xml(cell));
+        }
+        s.push_str("</row>");
+      }
+      s.push_str("</relation>");
+      s
+    }
+    "fd" => {
+      let mut s = String::from("<functionDefinition>");
+      for p in f["ps"].as_array().unwrap() {
+        s.push_str(&format!("<formalParameter name=\"{}\"/>", esc(p.as_str().unwrap())));
+      }
+      s.push_str(&form_xml(&f["body"]));
+      s.push_str("</functionDefinition>");
+      s
+    }
+    "list" => {
+      let mut s = String::from("<list>");
+      for i in f["items"].as_array().unwrap() {
+        s.push_str(&form_xml(i));
+      }
+      s.push_str("</list>");
+      s
+    }
+    "dt" => decision_table_xml(&f["table"]),
+    other => panic!("unknown form {}", other),
+  }
+}
+
+/// DMN XML of a model record emitted by Gen_C04.
+pub fn drg_model_xml(m: &serde_json::Value) -> String {
+  let mut s = format!("<?xml version=\"1.0\" encoding=\"UTF-8\"?>\n<definitions xmlns=\"{}\" namespace=\"ns\" name=\"m\" id=\"M\">", DMN_NS);
+  for i in m["inputs"].as_array().unwrap() {
+    let n = esc(i.as_str().unwrap());
+    s.push_str(&format!("<inputData name=\"{n}\" id=\"i_{n}\"><variable name=\"{n}\" typeRef=\"number\"/></inputData>", n = n));
+  }
+  for b in m["bkms"].as_array().unwrap() {
+    let n = esc(b["name"].as_str().unwrap());
+    s.push_str(&format!("<businessKnowledgeModel name=\"{n}\" id=\"b_{n}\"><variable name=\"{n}\"/>", n = n));
+    s.push_str("<encapsulatedLogic>");
+    for p in b["ps"].as_array().unwrap() {
+      s.push_str(&format!("<formalParameter name=\"{}\"/>", esc(p.as_str().unwrap())));
+    }
+    s.push_str(&form_xml(&b["form"]));
+    s.push_str("</encapsulatedLogic>");
+    for r in b["reqs"].as_array().unwrap() {
+      s.push_str(&format!("<knowledgeRequirement><requiredKnowledge href=\"#b_{}\"/></knowledgeRequirement>", esc(r.as_str().unwrap())));
+    }
+    s.push_str("</businessKnowledgeModel>");
+  }
+  for d in m["decisions"].as_array().unwrap() {
+    let n = esc(d["name"].as_str().unwrap());
+    s.push_str(&format!("<decision name=\"{n}\" id=\"d_{n}\"><variable name=\"{n}\"/>", n = n));
+    for r in d["reqIn"].as_array().unwrap() {
+      s.push_str(&format!("<informationRequirement><requiredInput href=\"#i_{}\"/></informationRequirement>", esc(r.as_str().unwrap())));
+    }
+    for r in d["reqDec"].as_array().unwrap() {
+      s.push_str(&format!("<informationRequirement><requiredDecision href=\"#d_{}\"/></informationRequirement>", esc(r.as_str().unwrap())));
+    }
+    for r in d["reqBkm"].as_array().unwrap() {
+      s.push_str(&format!("<knowledgeRequirement><requiredKnowledge href=\"#b_{}\"/></knowledgeRequirement>", esc(r.as_str().unwrap())));
+    }
+    for r in d["reqSvc"].as_array().unwrap() {
+      s.push_str(&format!("<knowledgeRequirement><requiredKnowledge href=\"#s_{}\"/></knowledgeRequirement>", esc(r.as_str().unwrap())));
+    }
+    s.push_str(&form_xml(&d["form"]));
+    s.push_str("</decision>");
+  }
+  for sv in m["services"].as_array().unwrap() {
+    let n = esc(sv["name"].as_str().unwrap());
+    s.push_str(&format!("<decisionService name=\"{n}\" id=\"s_{n}\"><variable name=\"{n}\"/>", n = n));
+    for r in sv["out"].as_array().unwrap() {
+      s.push_str(&format!("<outputDecision href=\"#d_{}\"/>", esc(r.as_str().unwrap())));
+    }
+    for r in sv["enc"].as_array().unwrap() {
+      s.push_str(&format!("<encapsulatedDecision href=\"#d_{}\"/>", esc(r.as_str().unwrap())));
+    }
+    for r in sv["inDec"].as_array().unwrap() {
+      s.push_str(&format!("<inputDecision href=\"#d_{}\"/>", esc(r.as_str().unwrap())));
+    }
+    for r in sv["inData"].as_array().unwrap() {
+      s.push_str(&format!("<inputData href=\"#i_{}\"/>", esc(r.as_str().unwrap())));
+    }
+    s.push_str("</decisionService>");
+  }
+  s.push_str("</definitions>");
+  s
+}
